@@ -600,12 +600,15 @@ func (t *Teamserver) DispatchEvent(pk packager.Package) {
 								ListenerName = val.(string)
 							}
 
-							// try to start the listener.
-							if err = listener.Start(pk.Body.Info); err != nil {
-								t.EventListenerError(ListenerName, err)
+							// append the listener to the teamserver listener array (names are unique)
+							t.ListenersMtx.Lock()
+							for _, l := range t.Listeners {
+								if l.Name == ListenerName {
+									t.ListenersMtx.Unlock()
+									t.EventListenerErrorOnly(ListenerName, errors.New("listener already exists"))
+									return
+								}
 							}
-
-							// append the listener to the teamserver listener array
 							t.Listeners = append(t.Listeners, &Listener{
 								Name: ListenerName,
 								Type: handlers.LISTENER_SERVICE,
@@ -614,6 +617,12 @@ func (t *Teamserver) DispatchEvent(pk packager.Package) {
 									Info:    pk.Body.Info,
 								},
 							})
+							t.ListenersMtx.Unlock()
+
+							// try to start the listener.
+							if err = listener.Start(pk.Body.Info); err != nil {
+								t.EventListenerError(ListenerName, err)
+							}
 
 							// break from this switch
 							return
@@ -633,13 +642,9 @@ func (t *Teamserver) DispatchEvent(pk packager.Package) {
 
 		case packager.Type.Listener.Remove:
 
-			if val, ok := pk.Body.Info["Name"]; ok {
-				t.ListenerRemove(val.(string))
-
-				var p = events.Listener.ListenerRemove(val.(string))
-
-				t.EventAppend(p)
-				t.EventBroadcast("", p)
+			if val, ok := pk.Body.Info["Name"].(string); ok {
+				// ListenerRemove announces the removal itself
+				t.ListenerRemove(val)
 			}
 
 			break
@@ -900,11 +905,13 @@ func (t *Teamserver) DispatchEvent(pk packager.Package) {
 						return
 					}
 
+					t.ListenersMtx.Lock()
 					for i := 0; i < len(t.Listeners); i++ {
 						if t.Listeners[i].Name == ListenerName {
 							PayloadBuilder.SetListener(t.Listeners[i].Type, t.Listeners[i].Config)
 						}
 					}
+					t.ListenersMtx.Unlock()
 
 					PayloadBuilder.SetExtension(Ext)
 
